@@ -6,7 +6,8 @@
 (*                                                                                         *)
 (* Replay granularity: the two critical sections of an unsubscribe are replayed back to    *)
 (* back (the harness cannot stop the real call between them without a hook), so Unsub2     *)
-(* is forced right after Unsub1 here; their interleavings are covered by the exhaustive    *)
+(* is forced right after Unsub1 here (and Sub2 right after a Sub1 that accepted nothing:   *)
+(* that call never reaches the AddTagsCtx gate); their interleavings are covered by the exhaustive *)
 (* model only. SubCheck/Sub1/Sub2 and RemoveStream/OnStreamClose are forced by harness gates.*)
 EXTENDS PubSubMC, VerifEmit
 
@@ -70,6 +71,8 @@ GInit == (IF Prelude = "holder" THEN InitHolder ELSE Init)
          /\ init0 = Proj /\ hist = <<>> /\ done = FALSE /\ sel = (IF UseCls THEN Choose ELSE AnySel)
 
 UnsubPending == \E s \in Sids : busy[s] = "unsub"
+\* a subscribe that accepts nothing does not call AddTagsCtx: the real call cannot be stopped between Sub1 and Sub2
+EmptySubPending == pend # NoPend /\ pend.acc = <<>>
 AllWithdrawn == \A s \in Sids : want[s] = {}
 ActorsDone == ~UseCls /\ GenRole = "node" /\ Quiescent /\ \A s \in GenStreams : st[s] = "gone"
 Terminal == \/ /\ Len(hist) >= MaxSteps
@@ -137,6 +140,8 @@ GNext ==
        ELSE /\ done' = FALSE /\ init0' = init0
             /\ IF UnsubPending
                  THEN (\E s \in Sids : Unsub2(s) /\ Rec([act |-> "Unsub2", s |-> s])) /\ sel' = sel
+               ELSE IF EmptySubPending
+                 THEN Sub2 /\ Rec([act |-> "Sub2"]) /\ sel' = sel
                ELSE IF ~UseCls
                  THEN (IF GenRole = "node" THEN NodeG ELSE ClientG) /\ sel' = sel
                ELSE IF Drawing
